@@ -106,7 +106,8 @@ def check(run, tier):
         run.obligation(bad == 0, n=n)
         run.rule("SCALE", n, n - bad if bad <= n else 0)
         report(run, cfg, A)
-        run.floor("%s.conversion_call_sites" % cfg, A.stats["conversion_calls"], 4)
+        run.floor("%s.conversion_call_sites" % cfg, A.stats["conversion_calls"], 2)
+        run.floor("%s.conversion_directions_used" % cfg, len({s[1] for s in A.conv_sites}), 2)
         run.floor("%s.comparisons_on_leap_scale" % cfg, len(set(A.l_compares)), 6)
         run.floor("%s.classes_L" % cfg, A.stats["classes_L"], 10)
         run.floor("%s.classes_U" % cfg, A.stats["classes_U"], 6)
@@ -122,12 +123,12 @@ def check(run, tier):
         if r is not None:
             fs[r] = (sc, g)
     corr = E.getter_field(ff, "badcrate::scale::Leap::corr")
-    ps = {"badcrate::scale::Zone::<'_>::%s" % n: {1: "U"} for n in ("lookup_good", "lookup_bad", "reuse_good", "helper_good", "through_iter_bad", "pair_bad", "pair_good")}
+    ps = {"badcrate::scale::Zone::<'_>::%s" % n: {1: "U"} for n in ("lookup_good", "lookup_bad", "reuse_good", "helper_good", "through_iter_bad", "pair_bad", "pair_good", "phase_good", "phase_bad")}
     FA = E.Analysis(ff, E.Seeds(fs, ps, corr, "badcrate::scale::Leap::corr")).run()
     hit = {x["group"].rsplit("::", 1)[-1] for x in FA.findings}
-    for name in ("lookup_bad", "stamp_bad", "through_iter_bad", "pair_bad"):
+    for name in ("lookup_bad", "stamp_bad", "through_iter_bad", "pair_bad", "phase_bad"):
         run.control("SCALE fires on %s" % name, name in hit)
-    for name in ("lookup_good", "stamp_good", "reuse_good", "helper_good", "pair_good"):
+    for name in ("lookup_good", "stamp_good", "reuse_good", "helper_good", "pair_good", "phase_good"):
         run.control("SCALE silent on %s" % name, name not in hit)
     run.control("CONV finds both fixture conversions", sorted(c["dir"] or "?" for c in FA.conversions.values()) == ["L->U", "U->L"])
     run.trusted += [
